@@ -359,7 +359,7 @@ def run_check(prop, tier, base_seed, opts):
                 if vs and match_known(vs[0], known) is None:
                     v = vs[0]
                     agg["violations"].append({"prop": prop, "oracle": v["oracle"], "at": v.get("at"),
-                                              "msg": "a repaired defect is back: " + str(v.get("msg")),
+                                              "msg": "regression replay fails (a repaired defect is back, or a new one breaks the same history): " + str(v.get("msg")),
                                               "seed": doc.get("seed"), "replay": path,
                                               "ops": len(doc["plan"]["ops"]), "orig_ops": doc.get("original_ops", 0)})
         except HarnessError as e:
